@@ -23,7 +23,7 @@ CONFIG = {
         "descriptor-consistent inputs: each digest is used under one media type and size (nodes of the model are digests); a tag name is never the digest string of another node (wf_history; C08_inconsistent_reference_example shows why); reference names are valid UTF-8 (encoding/json replaces invalid bytes)",
         "content.Successors / manifestutil.Subject / descriptor.IsManifest are parameters of the theorems (succs, subj, mf with succs k = [] for non-manifests); manifests in the universe are well-formed JSON; SHA-2 and the verification of pushed bytes (C05) are not modelled: a blob file is identified with its node",
         "graph.Memory is represented by its node set, Predecessors derived as {p in nodes | n in succs p} (graph.Memory's representation invariant, C07); IndexAll's per-call tracker is modelled as 'skip nodes already in the graph'; its goroutines are not modelled",
-        "Go map iteration orders (saveIndex two passes, gcIndex two passes) are explicit choice lists, theorems quantify over all of them; Delete's cascade (AutoGC) and the untag loop use a canonical order (outcome order-independence is C09's); the correspondence only generates AutoGC histories without referrers and without never-stored children",
+        "Go map iteration orders (saveIndex two passes, gcIndex two passes, per Delete queue iteration the Referrers and Remove sets) are explicit choice lists and the theorems quantify over all of them; the untag loop of delete() is order-independent by construction (each step filters one key). The correspondence run uses identity orders (Go's order is not controllable), so it only generates histories whose compared observables do not depend on the order: AutoGC histories without referrers, without never-stored children and without tags moved between nodes; GC only when every untagged referrer's subject is in the tagged closure",
         "encoding/json round trip of index.json, os file operations, archive/tar framing and internal/fs/tarfs (pos - blockSize arithmetic, PAX headers of sha512 blob names) are exercised by the harness on real directories and tars, not proved",
         "the GC hang (F1, C09) is modelled as result RHang with the state unchanged and never generated; Store.GC errors of os.ReadDir/os.Remove and stray files under blobs/ are not modelled",
     ],
